@@ -241,9 +241,10 @@ Shape(k, d, pc, fam) ==
                    ors \in {<<>>}}
                 \cup UNION {{PMap(<<EBind(a, key)>>, ors, s) : ors \in OrIfSym(a) \ {<<>>},
                                 key \in (IF full THEN {K(x), xs, Y(x), I(0)} ELSE {K(x)})} : a \in A}
-    [] k = 8 -> {PMap(<<EBind(a, K(x)), EBind(b, K(pre \o "v"))>>, <<>>, "") : a \in A, b \in B}
-    [] k = 9 -> IF full THEN {PMap(<<EKeys("", <<k1>>), EBind(a, K(x)), EBind(b, vs)>>,
-                                   <<Or(k1, Dflt(k1))>>, s) : a \in A, b \in B}
+    \* (two equal binding forms -- only the nameless [] -- would be a duplicate key of the map literal: not writable)
+    [] k = 8 -> UNION {{PMap(<<EBind(a, K(x)), EBind(b, K(pre \o "v"))>>, <<>>, "") : b \in B \ {a}} : a \in A}
+    [] k = 9 -> IF full THEN UNION {{PMap(<<EKeys("", <<k1>>), EBind(a, K(x)), EBind(b, vs)>>,
+                                          <<Or(k1, Dflt(k1))>>, s) : b \in B \ {a}} : a \in A}
                 ELSE {}
 
 (* ------------------------------- values derived from a pattern -------------------- *)
